@@ -14,16 +14,28 @@ from mc.engine import exc_symptom, short_tb
 ID = "C03"
 RULE = ("product explorer: left operand = sptensor holding every array over the value alphabet on the shape; right "
         "operand = every array over the alphabet held sparse and dense, plus scalars; every operator of mc/spops.py. "
-        "Reference = NumPy's operator on the expanded arrays (np.errstate ignore).  Non-trivial: both operands have "
-        "a non-zero and the reference result is neither all-zero nor all-equal.")
+        "Reference = NumPy's operator on the expanded arrays (np.errstate ignore).  Storage-dtype lattice: every ordered "
+        "pair (value dtype of the left sptensor, value dtype of the right sptensor / dense tensor) over float64, int64, bool "
+        "(+int8 thorough) with EVERY array over the per-dtype alphabet on a small shape - integer / boolean operands hold "
+        "integers, float64 operands additionally hold non-integral values (0.5 truncates to 0, -3.5 truncates to the other "
+        "side's -3); scalars additionally non-integral and NumPy-typed.  The reference is always the float64 expansion.  "
+        "Non-trivial: both operands have a non-zero and the reference result is neither all-zero nor all-equal.")
 ASSUMPTIONS = ["NumPy element-wise semantics on float64 arrays is the dense semantics the property names",
                "results observed through subs/vals/shape (sparse) or data (dense)",
-               "stored order of the left operand is F-sorted here (all orders are C06's job; thorough adds reversed/rotated)"]
+               "stored order of the left operand is F-sorted here (all orders are C06's job; thorough adds reversed/rotated)",
+               "the value dtype of an operand is storage only: an int64 / bool / int8 operand denotes the float64 array with the "
+               "same (exactly representable) values, and the outcome is compared as a float64 array",
+               "scalars are Python int / float (and their subclass np.float64); for other NumPy scalar types (np.int64) an "
+               "explicit AssertionError refusal is outside the quantifier (counted inadmissible), an accepted one must be right; "
+               "unary minus on bool storage is refused by NumPy itself and is outside the quantifier"]
 BOUNDS = {
     "quick": "all 3^4 x 3^4 joint value patterns (left over {0,2,-3}, right over {0,2,-2}: equal, cancelling, same-sign, opposite-sign pairs) on shapes (4,),(2,2),(2,1,2) + (2,2) with reversed/rotated stored orders; rhs sparse+dense; "
-             "13 binary ops; 7 scalars x 15 ops; 9 unary ops",
+             "13 binary ops; 7 scalars x 15 ops; 9 unary ops; storage-dtype lattice {float64,int64,bool}^2 on shape (3,) "
+             "((float64,float64) on (2,)): all arrays over left {0,2,-3}(+0.5 if float64) / {0,1} bool x right {0,2,-2}(+0.5,-3.5 if float64) / {0,1} bool, "
+             "rhs sparse+dense, 13 binary ops; per left dtype 16 scalars (7 + 0.5,-2.5 + np.float64 0,2,0.5,-2.5 + np.int64 -1,0,2) x 15 ops; 9 unary ops",
     "thorough": "quick + 4^4 x 4^4 over {0,2,-3,5} on (2,2); 3^6 x 3^6 on (2,3); 2^6 x 2^6 signed zero-patterns on (3,2),(1,2,3); "
-                "2^8 x 2^8 zero patterns (positive) on (2,2,2),(2,4); re-run of the 4-cell space with left reversed / right rotated",
+                "2^8 x 2^8 zero patterns (positive) on (2,2,2),(2,4); re-run of the 4-cell space with left reversed / right rotated; "
+                "storage-dtype lattice {float64,int64,bool,int8}^2 on shapes (3,),(1,3) incl. (float64,float64) with non-integral values",
 }
 CHUNK = 2
 
@@ -45,6 +57,52 @@ def _signed_pattern_arrays(ncells, positive=False):
     for pat in itertools.product((0, 1), repeat=ncells):
         out.append([0.0 if not p else (2.0 if (positive or l % 2 == 0) else -3.0) for l, p in enumerate(pat)])
     return out
+
+
+DTYPES = {"quick": ["float64", "int64", "bool"], "thorough": ["float64", "int64", "bool", "int8"]}
+FRACTIONAL_SCALARS = [0.5, -2.5]
+# (value, NumPy scalar type): np.float64 is a Python float; np.int64 is not a Python int
+TYPED_SCALARS = [[0.0, "float64"], [2.0, "float64"], [0.5, "float64"], [-2.5, "float64"],
+                 [-1, "int64"], [0, "int64"], [2, "int64"]]
+
+
+def _dtype_alphabet(dtype, side):
+    """Values an operand of the storage dtype ranges over (all exactly representable in it).  Integer storage: the
+    base alphabets of the float space.  float64 storage additionally holds non-integral values: 0.5 (truncates to an
+    implicit zero; equal on both sides) and, on the right, -3.5 (truncates to the left value -3)."""
+    if dtype == "bool":
+        return [0.0, 1.0]
+    ints = [0.0, 2.0, -3.0] if side == "L" else [0.0, 2.0, -2.0]
+    if np.dtype(dtype).kind == "f":
+        return ints + ([0.5] if side == "L" else [0.5, -3.5])
+    return ints
+
+
+def _dtype_spaces(tier):
+    """(shape, left dtype, right dtype) of the storage-dtype lattice."""
+    dts = DTYPES[tier]
+    shapes = [(3,)] if tier == "quick" else [(3,), (1, 3)]
+    out = []
+    for shape in shapes:
+        for ldt in dts:
+            for rdt in dts:
+                if tier == "quick" and ldt == rdt == "float64":
+                    out.append(((2,), ldt, rdt))     # the widest pair on one cell less
+                else:
+                    out.append((shape, ldt, rdt))
+    return out
+
+
+def _gen_dtype_cases(tier):
+    for shape, ldt, rdt in _dtype_spaces(tier):
+        for A in _arrays(prod(shape), _dtype_alphabet(ldt, "L")):
+            for rhs in ("sparse", "dense"):
+                yield {"check": "binop", "shape": list(shape), "A": A, "rhs": rhs, "Bspace": ["dtype", rdt],
+                       "ldtype": ldt, "rdtype": rdt}
+    for ldt in DTYPES[tier]:
+        for A in _arrays(3, _dtype_alphabet(ldt, "L")):
+            yield {"check": "scalar", "shape": [3], "A": A, "ldtype": ldt, "scalars": "typed"}
+            yield {"check": "unary", "shape": [3], "A": A, "ldtype": ldt}
 
 
 def gen_cases(tier, seed):
@@ -70,6 +128,7 @@ def gen_cases(tier, seed):
         for A in _arrays(4, alpha3):
             yield {"check": "binop", "shape": list(shape), "A": A, "rhs": "sparse", "Bspace": ["full", alpha3],
                    "lorder": "reversed", "rorder": "rotated"}
+    yield from _gen_dtype_cases(tier)
 
 
 def run_case(case, ctx):
@@ -84,9 +143,28 @@ def _order(k, how):
     return None
 
 
-def _build_sp(shape, vals, how=None):
+def _build_sp(shape, vals, how=None, dtype=None):
     k = sum(1 for v in vals if v != 0)
-    return H.build({"kind": "sptensor", "shape": list(shape), "vals": vals, "order": _order(k, how)})
+    d = {"kind": "sptensor", "shape": list(shape), "vals": vals, "order": _order(k, how)}
+    if dtype and dtype != "float64":
+        d["dtype"] = dtype
+    return H.build(d)
+
+
+def _build_dense(shape, vals, dtype=None):
+    d = {"kind": "tensor", "shape": list(shape), "vals": vals}
+    if dtype and dtype != "float64":
+        d["dtype"] = dtype
+    return H.build(d)
+
+
+def _scalar(c, ctype):
+    """The scalar argument: a Python number, or the NumPy scalar of the named type."""
+    return c if not ctype else np.dtype(ctype).type(c)
+
+
+def _python_scalar_type(ctype):
+    return not ctype or issubclass(np.dtype(ctype).type, (int, float))
 
 
 def _cls(v):
@@ -160,7 +238,13 @@ def _run_binop(case, ctx):
         Bs = [[float(v) for v in case["B"]]]
     else:
         mode, alpha = case["Bspace"]
-        Bs = _arrays(n, _right_alphabet(alpha)) if mode == "full" else _signed_pattern_arrays(n, positive=(mode == "positive"))
+        if mode == "full":
+            Bs = _arrays(n, _right_alphabet(alpha))
+        elif mode == "dtype":
+            Bs = _arrays(n, _dtype_alphabet(alpha, "R"))
+        else:
+            Bs = _signed_pattern_arrays(n, positive=(mode == "positive"))
+    ldt, rdt = case.get("ldtype"), case.get("rdtype")
     names = [case["op"]] if "op" in case else list(spops.BINOPS)
     for B in Bs:
         b = rm.arr(shape, B)
@@ -168,12 +252,11 @@ def _run_binop(case, ctx):
         for name in names:
             apply, ref = spops.BINOPS[name]
             sub = {"check": "binop", "shape": list(shape), "A": A, "B": B, "rhs": rhs, "op": name}
-            for k_ in ("lorder", "rorder"):
+            for k_ in ("lorder", "rorder", "ldtype", "rdtype"):
                 if k_ in case:
                     sub[k_] = case[k_]
-            S = _build_sp(shape, A, case.get("lorder"))
-            R = _build_sp(shape, B, case.get("rorder")) if rhs == "sparse" else H.build(
-                {"kind": "tensor", "shape": list(shape), "vals": B})
+            S = _build_sp(shape, A, case.get("lorder"), ldt)
+            R = _build_sp(shape, B, case.get("rorder"), rdt) if rhs == "sparse" else _build_dense(shape, B, rdt)
             want = np.asarray(ref(a, b), dtype=float)
             ctx.tick()
             try:
@@ -191,24 +274,43 @@ def _run_scalar(case, ctx):
     A = [float(v) for v in case["A"]]
     a = rm.arr(shape, A)
     ctx.state()
-    scalars = [case["c"]] if "c" in case else spops.SCALARS
-    for c in scalars:
+    ldt = case.get("ldtype")
+    if "c" in case:
+        scalars = [[case["c"], case.get("ctype")]]
+    else:
+        scalars = [[c, None] for c in spops.SCALARS]
+        if case.get("scalars") == "typed":
+            scalars += [[c, None] for c in FRACTIONAL_SCALARS] + TYPED_SCALARS
+    for c, ctype in scalars:
         table = dict(spops.BINOPS)
         table.update(spops.RBINOPS)
         names = [case["op"]] if "op" in case else list(table)
         for name in names:
             apply, ref = table[name]
             sub = {"check": "scalar", "shape": list(shape), "A": A, "c": c, "op": name}
-            S = _build_sp(shape, A)
+            if ldt:
+                sub["ldtype"] = ldt
+            if ctype:
+                sub["ctype"] = ctype
+            S = _build_sp(shape, A, None, ldt)
             want = np.asarray(ref(a, c), dtype=float)
             if want.shape != a.shape:
                 want = np.broadcast_to(want, a.shape).copy()
             ctx.tick()
             try:
-                res = apply(S, c)
+                res = apply(S, _scalar(c, ctype))
+            except AssertionError as e:
+                if not _python_scalar_type(ctype):
+                    ctx.inadm()        # explicit refusal of a scalar type the library does not promise to take
+                    ctx.flag(name + ":numpy_scalar_refused")
+                    continue
+                ctx.fail(spops.OPNAME[name], exc_symptom(e), short_tb(e), variant="scalar", case=sub)
+                continue
             except Exception as e:  # noqa: BLE001
                 ctx.fail(spops.OPNAME[name], exc_symptom(e), short_tb(e), variant="scalar", case=sub)
                 continue
+            if ctype and not _python_scalar_type(ctype):
+                ctx.flag(name + ":numpy_scalar_accepted")
             _check_result(ctx, spops.OPNAME[name], name, res, want, "scalar", sub, "scalar", a, c)
             if np.any(a != 0) and c != 0 and not np.all(want == want.flat[0]):
                 ctx.nontriv()
@@ -219,11 +321,17 @@ def _run_unary(case, ctx):
     A = [float(v) for v in case["A"]]
     a = rm.arr(shape, A)
     ctx.state()
+    ldt = case.get("ldtype")
     names = [case["op"]] if "op" in case else list(spops.UNOPS)
     for name in names:
         opname, apply, ref = spops.UNOPS[name]
         sub = {"check": "unary", "shape": list(shape), "A": A, "op": name}
-        S = _build_sp(shape, A)
+        if ldt:
+            sub["ldtype"] = ldt
+        if ldt == "bool" and name in ("neg", "elemfun_neg"):
+            ctx.inadm()                # NumPy defines no unary minus on boolean arrays
+            continue
+        S = _build_sp(shape, A, None, ldt)
         want = np.asarray(ref(a), dtype=float)
         ctx.tick()
         try:
